@@ -46,11 +46,18 @@ HISTORY = {
     "C14-f": "round 6 (blind): NO VERDICT (exit 2): Kani satisfied the cover 'returned normally for a probability outside (0,1)' -- a counterexample -- but the runner filed any unexpected cover status under 'vacuity witness not as expected'. Corrected: a satisfied MUST-NOT cover is treated like a failed assertion and replayed natively (scenario `bandpanic`: 0, -0, 1, 1+eps, negatives, NaN, +-inf must panic; values inside must not).",
     "C09-f": "round 6 (blind): NO VERDICT (exit 2): the Kani harness on the fault logic failed its assertion params() == the parameters just applied, but the native replay scenario (rejected update) does not exercise an evaluation failure. Strengthened: the failing-eval history of the symbolic `core` scenario proves params() == the parameters at the failure, and it is the second native replay of that harness.",
     "C04-f": "round 6 (blind): NO VERDICT (exit 2): Engine M saw that field `cached` of the returned problem is not the optimizer's final one on the Err path, but the native scenario only looked at the weighted data of an Err result. Strengthened: native `fitmap` and the symbolic `symfit`/`symfit2` require residuals and coefficients on the returned problem whenever the model never failed, Ok or Err.",
+    "C02-g": "round 7 (blind): caught on the first run.", "C10-g": "round 7 (blind): caught on the first run (update history ending at a truncated state).", "C15-g": "round 7 (blind): caught on the first run (systematic call sequences with a repeated initial guess).",
+    "C03-g": "round 7 (blind): NO RESULT: the check was killed after 45 minutes. The change rewrites the projected column as (x/||x||)*||x||; thousands of formerly syntactic equalities became hard for the solvers and each ran into the full 20 s race. Nothing was reported in that time (the defect itself needs the SQUARE of a norm to underflow/overflow, i.e. lies outside the real-arithmetic claim). Strengthened: wall-clock / exhausted-race budget per run (remaining queries are listed as undischarged), and a native metamorphic check `scalecore` (coefficients, residuals, Jacobian are homogeneous in the observations at scales 2^-540 .. 2^500).",
+    "C07-g": "round 7 (blind): NO RESULT: the check was killed after 30 minutes. The change adds a comparison per Jacobian element; the path exploration then flips hundreds of decisions sequentially (5 s each). Strengthened: the exploration loop obeys the same wall-clock budget.",
+    "C12-g": "round 7 (blind): MISSED (exit 0): needs weighted residuals that are EXACTLY zero (0/0 in a rescaling guard) -- an IEEE special case no configuration produced. Strengthened: native `statsfit` fits constant data with exp(a x) from a = 0 (termination ResidualsZero) and requires reduced chi^2 = 0 and standard error = 0.",
+    "C17-g": "round 7 (blind): MISSED (exit 0): the wrong output lengths tried were N-1, N+1 and 0; a length of exactly 1 with N >= 3 samples at an invariant function was not among them. Strengthened: lengths 1 and 2N at every function / invariant / derivative position, N cycling through 2, 3, 4.",
+    "C18-g": "round 7 (blind): NO VERDICT (exit 2): Engine M saw that the stored threshold no longer comes from Float::epsilon of the scalar type, but f64 runs cannot show a difference (the change only affects f32 models). Strengthened: the stored threshold is compared exactly in the native f32 runs of the core scenario as well.",
     "C04-a": "first evaluation design: Engine M alone reported it but its native replay scenario did not cover LostPatience; the native scenario fitmap now enumerates all 13 termination reasons.",
 }
 AFTER = {"C01-d": "/tmp/seb_C01-d_after.txt", "C15-d": "/tmp/seb_C15-d_after.txt", "C14-d": "/tmp/seb_C14-d_after.txt",
          "C18-e": "/tmp/seb_C18-e_after.txt", "C10-e": "/tmp/seb_C10-e_after.txt", "C08-e": "/tmp/seb_C08-e_after.txt", "C04-e": "/tmp/seb_C04-e_after.txt", "C09-e": "/tmp/seb_C09-e_after.txt",
-         "C11-f": "/tmp/seb_C11-f_after.txt", "C14-f": "/tmp/seb_C14-f_after.txt", "C09-f": "/tmp/seb_C09-f_after.txt", "C04-f": "/tmp/seb_C04-f_after.txt"}
+         "C11-f": "/tmp/seb_C11-f_after.txt", "C14-f": "/tmp/seb_C14-f_after.txt", "C09-f": "/tmp/seb_C09-f_after.txt", "C04-f": "/tmp/seb_C04-f_after.txt",
+         "C03-g": "/tmp/seb_C03-g_after.txt", "C07-g": "/tmp/seb_C07-g_after.txt", "C12-g": "/tmp/seb_C12-g_after.txt", "C17-g": "/tmp/seb_C17-g_after.txt", "C18-g": "/tmp/seb_C18-g_after.txt"}
 SUMMARY = {
     "C07-e": ("shared Jacobian helper with a 'fast path' for S > M whose gemm has alpha and beta swapped", "strictly more right-hand sides than basis functions"),
     "C09-e": ("fit_with_statistics: `let Some(coefficients) = .. else return Err` replaced by `.expect(..)`", "a model failure exactly at the optimizer's final re-application of the accepted parameters"),
@@ -72,6 +79,14 @@ SUMMARY = {
     "C13-f": ("machine-epsilon ridge added to the diagonal of H^T H before inversion", "entries of H^T H tiny in absolute terms"),
     "C09-f": ("after a failing evaluation the model is rolled back to its previous parameters", "an evaluation failure after the model accepted the parameters; params() inspected"),
     "C04-f": ("fit() clears the cache of the returned problem when the termination is not successful", "an unsuccessful termination of a model that evaluates fine (LostPatience)"),
+    "C02-g": ("weights() stores |w| instead of the weights as supplied", "a strictly negative weight"),
+    "C03-g": ("Jacobian column computed by projecting x/||x|| and rescaling by ||x||; the zero-norm branch returns x itself", "||W D_k C||^2 under- or overflowing (values below 1e-162 or above 1e154)"),
+    "C07-g": ("Jacobian elements <= eps * max|D_k C| are zeroed, the maximum taken over ALL right-hand sides", "right-hand sides whose scales differ by more than 1/eps"),
+    "C10-g": ("for a rank-deficient target the coefficients are computed as C_prev + solve(residual of C_prev): the null-space part of the previous coefficients leaks in", "an update to a truncated (rank-deficient) state after an earlier successful update"),
+    "C12-g": ("reduced chi^2 recomputed through a rescaling guard when the sum of squares is below min_positive: an exactly zero sum gives 0/0", "weighted residuals that are exactly zero (perfect fit, ResidualsZero)"),
+    "C15-g": ("length check of the initial guess moved into build(): a wrong-length guess is no longer sticky", "initial_parameters called twice, first with a wrong length"),
+    "C17-g": ("invariant functions returning a single element are broadcast over the samples", "an invariant function whose output has length exactly 1 with >= 2 samples"),
+    "C18-g": ("default threshold is the f64 constant f64::EPSILON cast to the scalar type", "an f32 model built without epsilon()"),
     "C15-d": ("initial_parameters() skips its length check when called directly after function()/partial_deriv()", "a wrong-length initial guess supplied right after a function"),
     "C02-d": ("residuals cached as Y_w - U(U^T Y_w) (third independent occurrence of this idea)", "a truncated singular value"),
     "C16-d": ("'skip the temporary Vec' fast path passing params[first..=last] (third independent occurrence)", "arity >= 4, endpoints fixed, middle shuffled"),
